@@ -170,6 +170,35 @@ func FamilySingle(ts TmplSpec) []*Skeleton {
 	for _, w := range logicWraps() {
 		out = append(out, mkSkel("F-single", "logic."+w.Name, w.F(lInt, lMin3), refsem.Draft2020, ts))
 	}
+	// wide keywords (fast paths keyed on sizes): many declared names, sparse instances
+	wideProps := J{}
+	var wideNames A
+	for _, k := range []string{"p1", "p2", "p3", "p4", "p5", "p6", "p7", "p8", "p9"} {
+		wideProps[k] = true
+		wideNames = append(wideNames, k)
+	}
+	for _, wd := range []Frag{
+		{"props9-addlFalse", J{"properties": wideProps, "additionalProperties": false}, "wide"},
+		{"props9-unevalFalse", J{"properties": wideProps, "unevaluatedProperties": false}, "wide"},
+		{"props9-typed", J{"properties": J{"p1": lInt, "p2": lInt, "p3": lX, "p4": true, "p5": true, "p6": true, "p7": true, "p8": true, "p9": false}, "additionalProperties": lStr2}, "wide"},
+		{"required9", J{"required": wideNames}, "wide"},
+		{"enum12", J{"enum": A{0, 1, 2, 3, 4, 5, 6, 7, 8, 9, "a", nil}}, "wide"},
+		{"prefix8", J{"prefixItems": A{true, true, true, true, true, true, true, lInt}, "items": false}, "wide"},
+		{"depReq8", J{"dependentRequired": J{"p1": A{"p2", "p3", "p4", "p5", "p6", "p7", "p8", "p9"}}}, "wide"},
+	} {
+		sk := mkSkel("F-single", wd.Group+"."+wd.Name, wd.J, refsem.Draft2020, ts)
+		// sparse instances: a few of the declared names and one undeclared
+		tm := *sk.Tm
+		tm.Keys = []string{"p1", "p9", "zz"}
+		if wd.Name == "depReq8" || wd.Name == "required9" {
+			tm.Keys = []string{"p1", "p2", "p9"}
+		}
+		if wd.Name == "prefix8" {
+			tm.MaxLen = 3
+		}
+		sk.Tm = &tm
+		out = append(out, sk)
+	}
 	// unknown keywords whose names differ from a vocabulary keyword only by case (ASCII or
 	// Unicode folding), with well- and ill-typed values: they must stay unknown
 	for _, u := range []Frag{
@@ -340,6 +369,28 @@ func FamilyNest(ts TmplSpec, depth3 bool) []*Skeleton {
 		add("uneval-"+tv.n+"-nested", merge(J{"allOf": A{J{"unevaluatedProperties": tv.v}}}, up))
 	}
 	add("items.contains-false", merge(J{"contains": false, "minContains": 0}, ui))
+	// the same shapes supplied by a loader: the root only refers to them (a property computed from
+	// the root document alone - e.g. "does anything use unevaluated*" - must not decide their fate)
+	for _, rn := range []struct {
+		n string
+		d J
+	}{
+		{"remote.allOf", merge(J{"allOf": A{pa, pb}}, up)},
+		{"remote.ref-anyOf-both", merge(J{"$ref": "#/$defs/d", "$defs": J{"d": J{"anyOf": A{pa, pb}}}}, up)},
+		{"remote.if-then", merge(J{"if": merge(pa, J{"required": A{"a"}}), "then": pb}, up)},
+		{"remote.items.allOf", merge(J{"allOf": A{p1, p2}}, ui)},
+		{"remote.items.contains", merge(J{"contains": lX}, ui)},
+	} {
+		d := js(rn.d)
+		sk := mkSkel("F-nest", rn.n, J{"$ref": "http://h/strict.json"}, refsem.Draft2020, ts)
+		sk.Tm = ts.For(d)
+		sk.Universe = map[string]string{"http://h/strict.json": d}
+		out = append(out, sk)
+		sk2 := mkSkel("F-nest", rn.n+"-under-property", J{"properties": J{"a": J{"$ref": "http://h/strict.json"}}}, refsem.Draft2020, ts)
+		sk2.Tm = TmplFor([]string{d, `{"a":1}`}, ts.Depth, ts.MaxLen, ts.MaxKeys)
+		sk2.Universe = map[string]string{"http://h/strict.json": d}
+		out = append(out, sk2)
+	}
 	if depth3 {
 		add("d3.anyOf-in-allOf", merge(J{"allOf": A{J{"anyOf": A{merge(pa, J{"required": A{"b"}}), pb}}, J{"oneOf": A{pbReq, paStr}}}}, up))
 		add("d3.if-in-anyOf", merge(J{"anyOf": A{J{"if": merge(pa, J{"required": A{"a"}}), "then": pb}, J{"properties": J{"zz": lInt}, "required": A{"zz"}}}}, up))
